@@ -33,7 +33,7 @@ class C11(BaseCheck):
              'scales.kafka.sink:KafkaTransportSink._ProcessReply')
   REQUIRED_ANCHORS = ANCHORS
   REQUIRED_CLASSES = ('thriftmux', 'kafka', 'adv:duplicate-reply', 'adv:unknown-tag', 'adv:reserved-tag-1',
-                      'adv:tag-0', 'adv:huge-tag', 'adv:bitflip-tag', 'timeout-before-send', 'timeout-after-send', 're-open',
+                      'adv:tag-0', 'adv:huge-tag', 'adv:bitflip-tag', 'kafka:timeouts', 'timeout-before-send', 'timeout-after-send', 're-open',
                       'tag-reuse')
   ASSUMPTIONS = ('a tag counts as answered when the client has read the last byte of any R-frame carrying it '
                  '(known from the simulated socket\'s read offsets)',)
@@ -383,8 +383,8 @@ class C11(BaseCheck):
     from scales.constants import MessageProperties, SinkProperties
     from scales.dispatch import _AsyncResponseSink
     from scales.kafka.sink import KafkaEndpoint, KafkaSerializerSink, KafkaTransportSink
-    from scales.message import MethodCallMessage
-    from scales.sink import ClientMessageSinkStack
+    from scales.message import Deadline, MethodCallMessage
+    from scales.sink import ClientMessageSinkStack, TimeoutSinkProvider
     from vlib import kafkacodec as kc, servers
     from vlib.stackworld import get_net, _PORT
     classes = {'kafka'}
@@ -394,8 +394,12 @@ class C11(BaseCheck):
     port = _PORT[0]
     adversarial = rng.random() < 0.6
 
+    with_timeouts = rng.random() < 0.5
+
     class Policy(servers.DefaultPolicy):
       def __call__(self, server, conn, req):
+        if with_timeouts and rng.random() < 0.3:
+          return {'delay': rng.choice([0.04, 0.08, 0.3])}     # later than the short deadlines
         return {'delay': rng.choice([0.0005, 0.002, 0.02]) * (0.3 + rng.random())}
     broker = servers.KafkaBroker(net, 'kb', port, Policy())
     # frame events for the monitor
@@ -411,7 +415,11 @@ class C11(BaseCheck):
     sp = KafkaSerializerSink.Builder()
     sp.next_provider = tp
     ep = KafkaEndpoint('kb', port, 0)
-    sink = sp.CreateSink({SinkProperties.Endpoint: ep, SinkProperties.Label: 'kafka'})
+    tprov = TimeoutSinkProvider()
+    tprov.next_provider = sp
+    sink = tprov.CreateSink({SinkProperties.Endpoint: ep, SinkProperties.Label: 'kafka'})
+    if with_timeouts:
+      classes.add('kafka:timeouts')
     try:
       sink.Open().get(timeout=5)
     except Exception as e:  # noqa
@@ -426,6 +434,8 @@ class C11(BaseCheck):
       for _ in range(min(rng.randint(1, conc), ncalls - issued)):
         msg = MethodCallMessage(None, 'Put', (b't', [b'p%d' % issued], 1), {})
         msg.properties[MessageProperties.Endpoint] = ep
+        if with_timeouts:
+          msg.properties[Deadline.KEY] = env.now + rng.choice([0.01, 0.03, 2.0, 2.0])
         ar = AsyncResult()
         st = ClientMessageSinkStack()
         st.Push(_AsyncResponseSink(), (None, 0, ar, msg.properties))
